@@ -204,25 +204,32 @@ def wake (r : Reg) : Reg := if r.used = true then { r with awt := false } else r
 def wokenOf (regs : List Reg) : List Nat :=
   (regs.filter (fun x => x.used && x.awt)).map (·.sub)
 
-/-- `push_lk(count)` after the values were put in front of `_q` -/
-def pushLk (s : State) (vals : List Nat) : State × Res :=
+/-- `push_lk(count)` after the values were put in front of `_q`; `cl` is the value of `_closed` it runs with
+(`close()` sets the flag in the same lock region) -/
+def pushLk (s : State) (vals : List Nat) (cl : Bool) : State × Res :=
   ({ s with pos := s.pos + vals.length,
             q := (vals.reverse ++ s.q).take
                    (min (needLen s.regs (s.pos + vals.length) s.minLen) (capMin s.maxLen (vals.length + s.q.length))),
             regs := s.regs.map wake,
+            closed := cl,
             stream := s.stream ++ vals },
    Res.woken (wokenOf s.regs))
 
 /-- `push(val)` / `push(from, to)`; an empty batch does nothing -/
 def stepPush (s : State) (vals : List Nat) : State × Res :=
-  if vals = [] then (s, Res.woken []) else pushLk s vals
+  if vals = [] then (s, Res.woken []) else pushLk s vals s.closed
 
 def stepClose (s : State) : State × Res :=
-  if s.closed = true then (s, Res.unit) else pushLk { s with closed := true } []
+  if s.closed = true then (s, Res.unit) else pushLk s [] true
 
-/-- `kick_lk`: the first used registration of that subscriber -/
+/-- `std::find_if` of `kick_lk`: index of the first used registration of that subscriber -/
+def kickIdx : List Reg → Nat → Option Nat
+  | [], _ => none
+  | x :: xs, sid => if x.used = true ∧ x.sub = sid then some 0 else (kickIdx xs sid).map (· + 1)
+
+/-- `kick_lk` -/
 def stepKick (s : State) (sid : Nat) : State × Res :=
-  match s.regs.findIdx? (fun x => x.used && x.sub == sid) with
+  match kickIdx s.regs sid with
   | none => (s, Res.woken [])
   | some i =>
     match s.regs[i]? with
